@@ -463,11 +463,15 @@ RunLoop:
 				// Check if the loop is done.  It can be done if we have gone
 				// over the stop value or if there has been overflow /
 				// underflow.
+				// An unordered comparison (NaN) also means the loop is done.
 				var done bool
 				if isPositive(step) {
 					done = numIsLessThan(stop, nextStart) || numIsLessThan(nextStart, start)
 				} else {
 					done = numIsLessThan(nextStart, stop) || numIsLessThan(start, nextStart)
+				}
+				if nextStart.IsNaN() || step.IsNaN() {
+					done = true
 				}
 				if done {
 					nextStart = NilValue
@@ -515,6 +519,11 @@ RunLoop:
 					done, _ = isLessThan(stop, start)
 				} else {
 					done, _ = isLessThan(start, stop)
+				}
+				// Nothing is within a NaN limit, and a NaN start or step gives
+				// no progression.
+				if start.IsNaN() || stop.IsNaN() || step.IsNaN() {
+					done = true
 				}
 				if done {
 					start = NilValue
